@@ -322,6 +322,13 @@ def run(chk, pid):
             rng.shuffle(ops)
         elif pid == 'C02':
             uni = rand_universe(rng, rng.choice([3, 6, 10]), with_methods=True)
+            # several rules (= handlers) on one pattern with different method sets
+            for r in list(uni):
+                if rng.random() < 0.5:
+                    have = set(r['meths'])
+                    rest = [m for m in ['GET', 'HEAD', 'POST', 'ANY', 'PUT'] if m not in have]
+                    ms = rng.sample(rest, rng.randint(1, min(2, len(rest))))
+                    uni.append(dict(r, id=r['id'] + 's', meths=sorted(ms), meths_spelled=ms, name=''))
             ops = rand_history(rng, uni, rng.choice([6, 12, 25]), ['add', 'add', 'add', 'remove_method'])
         else:
             uni = rand_universe(rng, rng.choice([4, 8, 25]), with_methods=rng.random() < 0.4)
